@@ -103,11 +103,18 @@ class Ctx(Part):
 
 
 def load_findings():
+    out = []
     p = os.path.join(VERIF, "known_findings.json")
-    if not os.path.exists(p):
-        return []
-    with open(p) as f:
-        return json.load(f)["findings"]
+    if os.path.exists(p):
+        with open(p) as f:
+            out.extend(json.load(f)["findings"])
+    d = os.path.join(VERIF, "findings.d")      # per-property staging files, merged into known_findings.json
+    if os.path.isdir(d):
+        for n in sorted(os.listdir(d)):
+            if n.endswith(".json"):
+                with open(os.path.join(d, n)) as f:
+                    out.extend(json.load(f)["findings"])
+    return out
 
 
 def match_finding(pid, bucket, case, findings):
